@@ -6,6 +6,7 @@ import (
 	txfile "github.com/elastic/go-txfile"
 
 	"verif/engine/sched"
+	"verif/engine/vdet"
 )
 
 // Role resolves a role index against the visible page list: r >= 0 is the
@@ -289,6 +290,14 @@ func (e *Env) doWrite(id uint64, mode int) {
 		return
 	}
 	if err != nil {
+		if mode != WFull && cur[0] == Undef && cur[1] == Undef && !e.T.New[id] {
+			// A partial write or a Load needs the original contents of a page
+			// that was allocated in an earlier transaction and never written:
+			// nothing defines them (in an unbounded file the page may lie
+			// beyond the mapped file), so the call may fail; it changed nothing.
+			e.obs("write(mode %d) of never written page %d: %v", mode, id, ErrKind(err))
+			return
+		}
 		e.violate("error/Write", "write(mode %d) of page %d failed: %v", mode, id, err)
 		return
 	}
@@ -356,6 +365,10 @@ func (e *Env) Apply(op Op) {
 	e.Ops++
 	if e.Eager {
 		defer sched.LetOthersRun()
+	}
+	if op.M != 0 {
+		vdet.SetOrder(op.M)
+		defer vdet.SetOrder(0)
 	}
 	switch op.K {
 	case OBegin:
@@ -595,6 +608,9 @@ func (e *Env) Commit() {
 		e.violate("commit/txid", "header txid went from %d to %d in one commit", prev, e.LastTxid)
 	}
 	e.obs("commit=ok")
+	if e.DiskCheck {
+		e.CheckDisk(e.M, "after the commit")
+	}
 	e.afterTx()
 }
 
@@ -622,7 +638,7 @@ func (e *Env) Reopen(o txfile.Options) bool {
 		return false
 	}
 	if err != nil {
-		e.violate("error/Open", "reopening a cleanly closed file failed: %v", err)
+		e.violate("error/Open", "reopening a cleanly closed file failed: %s", ErrChain(err))
 		e.Dead = true
 		return false
 	}
